@@ -270,20 +270,22 @@ Definition osep_ok (o : option bytes) : Prop := match o with Some x => str_ok x 
    the recorded defect, see rep_refuted.) *)
 Theorem rep_correct_nonneg s n sep :
   str_ok s -> osep_ok sep -> in64 n -> 0 <= n ->
-  (rep_len s n sep < 2^63 -> rep_im s n sep = Ok (rep_spec s n sep)) /\
+  (n = 1 \/ rep_len s n sep <= maxRepSize -> rep_im s n sep = Ok (rep_spec s n sep)) /\
+  (2 <= n -> maxRepSize < rep_len s n sep < 2^63 -> rep_im s n sep = Err ETooLarge) /\
   (2^63 <= rep_len s n sep -> rep_im s n sep = Err EOverflow).
 Proof.
   intros Hs Hsep Hn H0. unfold str_ok, in64, minint, maxint in *.
   pose proof (len_nonneg s) as Hl.
-  unfold rep_im, rep_spec, rep_len.
+  unfold rep_im, rep_spec, rep_len, maxRepSize.
   replace (n <? 0) with false by (symmetry; apply Z.ltb_ge; lia).
   destruct (n =? 0) eqn:E0.
-  { apply Z.eqb_eq in E0. subst n. cbn. split; [reflexivity|lia]. }
+  { apply Z.eqb_eq in E0. subst n. cbn. repeat split; (reflexivity || lia). }
   apply Z.eqb_neq in E0.
   replace (n <=? 0) with false by (symmetry; apply Z.leb_gt; lia).
   destruct (n =? 1) eqn:E1.
   { apply Z.eqb_eq in E1. subst n. cbn [Z.to_nat Pos.to_nat Pos.iter_op Nat.add sep_copies].
-    split; [reflexivity|]. destruct sep as [x|]; cbn [osep_ok] in Hsep; unfold str_ok, maxint in Hsep; cbn [len length] ; lia. }
+    split; [reflexivity|]. split; [lia|].
+    destruct sep as [x|]; cbn [osep_ok] in Hsep; unfold str_ok, maxint in Hsep; cbn [len length]; lia. }
   apply Z.eqb_neq in E1.
   assert (Hn2 : 2 <= n) by lia.
   destruct (Z.to_nat n) as [|k] eqn:Ek; [lia|].
@@ -302,25 +304,32 @@ Proof.
         destruct (len s * n + len x * (n - 1) <? 2^63) eqn:C.
         -- apply Z.ltb_lt in C. rewrite wrap_id by (unfold in64, minint, maxint; nia).
            replace (len s * n + len x * (n - 1) <? 0) with false by (symmetry; apply Z.ltb_ge; nia).
-           destruct (len s * n + len x * (n - 1) =? 0) eqn:Z0; [|split; [reflexivity|lia]].
-           apply Z.eqb_eq in Z0. split; [intros _|lia].
+           rewrite Z.gtb_ltb.
+           destruct (2^40 <? len s * n + len x * (n - 1)) eqn:D; [apply Z.ltb_lt in D|apply Z.ltb_ge in D].
+           { repeat split; intros; (reflexivity || lia). }
+           destruct (len s * n + len x * (n - 1) =? 0) eqn:Z0; [|repeat split; intros; (reflexivity || lia)].
+           apply Z.eqb_eq in Z0. split; [intros _|split; lia].
            assert (Es : len s = 0) by nia. assert (Ex : len x = 0) by nia.
            destruct s as [|b0 s0]; [|exfalso; unfold len in Es; cbn [length] in Es; lia].
            destruct x as [|b1 x0]; [|exfalso; unfold len in Ex; cbn [length] in Ex; lia].
            rewrite sep_copies_nil. reflexivity.
         -- apply Z.ltb_ge in C.
            replace (wrap (len s * n + len x * (n - 1)) <? 0) with true.
-           ++ split; [lia|reflexivity].
+           ++ repeat split; intros; (reflexivity || lia).
            ++ symmetry. apply Z.ltb_lt. unfold wrap.
               replace (len s * n + len x * (n - 1) + 2^63) with ((len s * n + len x * (n - 1) - 2^63) + 1 * 2^64) by lia.
               rewrite Z.mod_add by lia. rewrite Z.mod_small by nia. lia.
-      * apply Z.ltb_ge in B. split; [nia|reflexivity].
-    + apply Z.ltb_ge in A. split; [nia|reflexivity].
+      * apply Z.ltb_ge in B. repeat split; intros; (reflexivity || nia).
+    + apply Z.ltb_ge in A. repeat split; intros; (reflexivity || nia).
   - rewrite (mul_check (len s) n) by lia. cbn [len length]. rewrite Z.mul_0_r, Z.add_0_r.
     rewrite (Z.mul_comm n (len s)).
     destruct (len s * n <? 2^63) eqn:A; cbn [negb].
-    + apply Z.ltb_lt in A. split; [intros _|lia]. rewrite repeat_sep_copies. reflexivity.
-    + apply Z.ltb_ge in A. split; [lia|reflexivity].
+    + apply Z.ltb_lt in A. rewrite (wrap_id (len s * n)) by (unfold in64, minint, maxint; nia).
+      rewrite Z.gtb_ltb.
+      destruct (2^40 <? len s * n) eqn:D; [apply Z.ltb_lt in D|apply Z.ltb_ge in D].
+      * repeat split; intros; (reflexivity || lia).
+      * split; [intros _; rewrite repeat_sep_copies; reflexivity|split; lia].
+    + apply Z.ltb_ge in A. repeat split; intros; (reflexivity || lia).
 Qed.
 
 (* the hypotheses used by the theorems are satisfiable, extreme positions included *)
